@@ -7,6 +7,16 @@ func init() {
 			New: "\t\t\t\t\tdefer func() { resp.Ns = dnsutil.FilterRRsToZone(resp.Ns, signer) }()\n\n\t\t\t\t\t// RFC 4035 §5.3.4: a wildcard-expanded answer is only",
 			Why: "foreign unsigned NSEC records reach the wildcard next-closer proof (seeded C01)"},
 	})
+	addMutants("C14", []Mutant{
+		{ID: "c14-rsa-compare-right-aligned", File: "middleware/resolver/dnssec/rsa.go", Expect: "C14-R5",
+			Old: "\tpadded := make([]byte, size)\n\tcopy(padded[size-len(em):], em)\n\n\tif subtle.ConstantTimeCompare(padded, expected) != 1 {", New: "\tif subtle.ConstantTimeCompare(em, expected[size-len(em):]) != 1 {",
+			Why: "an all-zero signature verifies under a wide-exponent key (seeded C14)"},
+	})
+	addMutants("C02", []Mutant{
+		{ID: "c02-encloser-ignores-next", File: "middleware/resolver/dnssec/aggressive_negative.go", Expect: "C02-R9",
+			Old: "\tshared := ownerShared\n\tif nextShared > shared {\n\t\tshared = nextShared\n\t}\n", New: "\tshared := ownerShared\n\t_ = nextShared\n",
+			Why: "a wildcard-covered name under an ENT is denied (seeded C02)"},
+	})
 	addMutants("C13", []Mutant{
 		{ID: "c13-wire-lookup-serves-expired", File: "middleware/cache/failure_cache.go", Expect: "C13-R8",
 			Old: "\t\t\tinternalcache.WireNameEqualsPresentation(name, entry.question.Question.Name) &&\n\t\t\tnow.Before(entry.retryAfter) {", New: "\t\t\tinternalcache.WireNameEqualsPresentation(name, entry.question.Question.Name) {",
